@@ -1491,8 +1491,9 @@ class Stream(AbstractStream):
         elif N_streams == 1:
             if energy_balance:
                 self.copy_like(streams[0])
-            elif self._imol.data.ndim == 2 and self.chemicals is not streams[0].chemicals:
-                # Multi-phase copy_flow requires the same chemicals
+            elif self._imol.data.ndim == 2 and (self.chemicals is not streams[0].chemicals
+                                                or self.phases != streams[0].phases):
+                # Multi-phase copy_flow requires the same chemicals and copies phase rows by position
                 self._imol.mix_from([streams[0]._imol])
             else:
                 self.copy_flow(streams[0])
